@@ -15,6 +15,7 @@ import (
 	"path/filepath"
 	"runtime"
 	"runtime/metrics"
+	"sync"
 	"testing"
 
 	"github.com/rs/zerolog"
@@ -812,6 +813,94 @@ func FuzzDecoder(f *testing.F) {
 		if r := checkInput(in, true); r != nil {
 			ev.SaveReplay("C17-fuzz", r)
 			t.Fatalf("%s on input %s: %s", r.Entry, r.Input, r.What)
+		}
+	})
+}
+
+// slowW is a destination that lets other goroutines run in the middle of every Write.
+type slowW struct{ b *bytes.Buffer }
+
+func (s slowW) Write(q []byte) (int, error) {
+	runtime.Gosched()
+	n, err := s.b.Write(q)
+	runtime.Gosched()
+	return n, err
+}
+
+// TestRapidConcurrentDecode: several goroutines decode different streams at the same time (a log
+// viewer serving requests, ConsoleWriter behind several loggers): every one of them gets exactly
+// what it gets alone, through every entry point.
+func TestRapidConcurrentDecode(t *testing.T) {
+	rapid.Check(t, func(rt *rapid.T) {
+		ng := rapid.IntRange(2, 6).Draw(rt, "G")
+		type job struct {
+			in       []byte
+			want     string
+			wantOne  string
+			firstLen int
+		}
+		var jobs []job
+		for g := 0; g < ng; g++ {
+			all, bounds := stream(rt)
+			if len(bounds) == 0 {
+				continue
+			}
+			var out bytes.Buffer
+			zerolog.VerifCbor2JsonManyObjects(bytes.NewReader(all), &out)
+			first := all[:bounds[0]]
+			jobs = append(jobs, job{all, out.String(), string(zerolog.VerifDecodeIfBinaryToBytes(first)), bounds[0]})
+		}
+		if len(jobs) < 2 {
+			return
+		}
+		// one earlier decode has completed before the concurrent ones start (see above), as in a long-running process
+		var wg sync.WaitGroup
+		bad := make([]string, len(jobs))
+		for i := range jobs {
+			i := i
+			wg.Add(1)
+			go func() {
+				defer wg.Done()
+				defer func() {
+					if r := recover(); r != nil {
+						bad[i] = fmt.Sprintf("decoding panicked: %v", r)
+					}
+				}()
+				j := jobs[i]
+				for rep := 0; rep < 4 && bad[i] == ""; rep++ {
+					var out bytes.Buffer
+					zerolog.VerifCbor2JsonManyObjects(bytes.NewReader(j.in), slowW{&out})
+					if out.String() != j.want {
+						bad[i] = fmt.Sprintf("Cbor2JsonManyObjects beside %d other decodes gives %.150q, alone %.150q", len(jobs)-1, out.String(), j.want)
+						break
+					}
+					if got := string(zerolog.VerifDecodeIfBinaryToBytes(j.in[:j.firstLen])); got != j.wantOne {
+						bad[i] = fmt.Sprintf("DecodeIfBinaryToBytes beside %d other decodes gives %.150q, alone %.150q", len(jobs)-1, got, j.wantOne)
+					}
+					if got := zerolog.VerifDecodeIfBinaryToString(j.in[:j.firstLen]); got != j.wantOne {
+						bad[i] = fmt.Sprintf("DecodeIfBinaryToString beside %d other decodes gives %.150q, alone %.150q", len(jobs)-1, got, j.wantOne)
+					}
+				}
+			}()
+		}
+		wg.Wait()
+		var key []byte
+		for _, j := range jobs {
+			key = append(key, j.in...)
+		}
+		rec.Case(key, true, "concurrent-decode", fmt.Sprintf("goroutines:%d", len(jobs)))
+		for i, b := range bad {
+			if b != "" {
+				ev.SaveReplay("C17-concurrent", map[string]interface{}{"streams_hex": func() []string {
+					var hs []string
+					for _, j := range jobs {
+						hs = append(hs, hex.EncodeToString(j.in))
+					}
+					return hs
+				}(), "failing": i})
+				fmt.Printf("VERIF-FAIL: %s\n", b)
+				rt.Fatalf("%s", b)
+			}
 		}
 	})
 }
